@@ -5,6 +5,7 @@ import glob, json, os, re
 root = os.path.join(os.path.dirname(os.path.abspath(__file__)), "..")
 rows = []
 n_missed = 0
+n_tie = 0
 for d in sorted(glob.glob(os.path.join(root, "seeded", "*", "meta.json"))):
     m = json.load(open(d))
     sid = os.path.basename(os.path.dirname(d))
@@ -16,6 +17,9 @@ for d in sorted(glob.glob(os.path.join(root, "seeded", "*", "meta.json"))):
         note = "first missed; " + note
     if not caught:
         n_missed += 1
+    elif all("tie only" in (r.get("note") or "") for r in runs if r["result"] == "caught"):
+        n_tie += 1
+        note = "NO failing input (tie only). " + note
     what = re.sub(r"\s+", " ", str(m.get("what_breaks", "")).replace("|", "/"))[:150]
     rows.append("| %s | %s | %s | %s |" % (sid, ", ".join("./check " + c for c in caught) or "**not caught**",
                                            what, note.replace("|", "/")[:170]))
@@ -32,7 +36,8 @@ column); where a `fix:` commit rewrote the lines a patch touched, the same chang
 
 | id | caught by | what the change breaks | note |
 |---|---|---|---|
-""" % (len(rows), "Every one is reported with `VIOLATION` and a concrete failing input." if not n_missed else
+""" % (len(rows), ("Every one is reported with `VIOLATION`; %d of them only through a broken tie (`no-failing-input-found`), all others "
+        "with a concrete failing input." % n_tie) if not n_missed else
        "%d of them are NOT caught by any check (rows marked so); they are kept as open gaps." % n_missed)
 sec += "\n".join(rows) + "\n\n"
 p = os.path.join(root, "DESIGN.md")
